@@ -70,6 +70,123 @@ func runC12(c *Check) {
 
 	// R4: demangling never replaces a non-empty name by an empty one (structural part).
 	c.demangleNames()
+
+	// R2c: symbolz answers are attached only to locations of the mapping being symbolized
+	if sm := c.anchorFn("C12-R2", "internal/symbolz", "symbolizeMapping"); sm != nil {
+		var mp *ssa.Parameter
+		for _, pr := range sm.Params {
+			if structName(pr.Type()) == "profile.Mapping" {
+				mp = pr
+			}
+		}
+		n := 0
+		for _, b := range sm.Blocks {
+			for _, ins := range b.Instrs {
+				st, ok := ins.(*ssa.Store)
+				if !ok {
+					continue
+				}
+				fa, ok := st.Addr.(*ssa.FieldAddr)
+				if !ok {
+					continue
+				}
+				if T, F := fieldOf(fa.X.Type(), fa.Field); T != "profile.Location" || F != "Line" {
+					continue
+				}
+				n++
+				reach := reachUnder(sm, func(cond ssa.Value) int {
+					// assume the location belongs to another mapping: l.Mapping != m
+					if cmp, ok := cond.(*ssa.BinOp); ok && mp != nil && (cmp.Op == token.NEQ || cmp.Op == token.EQL) {
+						other := ssa.Value(nil)
+						if cmp.X == ssa.Value(mp) {
+							other = cmp.Y
+						} else if cmp.Y == ssa.Value(mp) {
+							other = cmp.X
+						}
+						if other != nil && isFieldLoad(other, "profile.Location", "Mapping") {
+							if cmp.Op == token.NEQ {
+								return 1
+							}
+							return -1
+						}
+					}
+					return 0
+				})
+				if reach[st.Block()] {
+					c.bad("C12-R2", "foreign-mapping:symbolizeMapping", p.relFile(st.Pos()), "symbolizeMapping can assign Location.Line for a location that belongs to a different mapping than the one being symbolized: a location of an already symbolized mapping with the same address is overwritten without force")
+				} else {
+					c.ok("C12-R2", "foreign-mapping:symbolizeMapping", p.relFile(st.Pos()), "symbolz answers are attached only to locations of the mapping being symbolized", "the store to Location.Line is unreachable when l.Mapping != m")
+				}
+			}
+		}
+		if n == 0 {
+			c.undecided("C12-R2", "foreign-mapping:symbolizeMapping", p.relFile(sm.Pos()), "symbolizeMapping does not assign Location.Line")
+		}
+	}
+
+	// R5: every element of a freshly made Location.Line gets its Function on every iteration
+	if so := c.anchorFn("C12-R5", "internal/symbolizer", "symbolizeOneMapping"); so != nil {
+		var elemStore *ssa.Store
+		for _, b := range so.Blocks {
+			for _, ins := range b.Instrs {
+				st, ok := ins.(*ssa.Store)
+				if !ok {
+					continue
+				}
+				if ia, ok := st.Addr.(*ssa.IndexAddr); ok {
+					if ld, ok := ia.X.(*ssa.UnOp); ok && isFieldLoad(ld, "profile.Location", "Line") && loopDirection(ia.Index) != "" {
+						elemStore = st
+					}
+				}
+			}
+		}
+		if elemStore == nil {
+			c.undecided("C12-R5", "lines-filled", p.relFile(so.Pos()), "symbolizeOneMapping does not fill Location.Line element by element")
+		} else if skippableInIteration(elemStore.Block()) {
+			c.bad("C12-R5", "lines-filled", p.relFile(elemStore.Pos()), "a path through the frame loop of symbolizeOneMapping skips the assignment of l.Line[i]: the pre-sized slice keeps a zero Line with a nil Function and the profile is no longer valid")
+		} else {
+			c.ok("C12-R5", "lines-filled", p.relFile(elemStore.Pos()), "every element of the pre-sized Location.Line is assigned", "no path through one iteration of the frame loop avoids the store to l.Line[i]")
+		}
+	}
+}
+
+// skippableInIteration: can control go once around the innermost loop containing block b
+// without entering b?
+func skippableInIteration(b *ssa.BasicBlock) bool {
+	var hdr *ssa.BasicBlock
+	for d := b; d != nil && hdr == nil; d = d.Idom() {
+		for _, pred := range d.Preds {
+			if d.Dominates(pred) && (pred == b || blockReachesPlain(b, pred)) {
+				hdr = d
+			}
+		}
+	}
+	if hdr == nil {
+		return false
+	}
+	body := naturalLoop(hdr)
+	seen := map[*ssa.BasicBlock]bool{}
+	skipped := false
+	var walk func(x *ssa.BasicBlock)
+	walk = func(x *ssa.BasicBlock) {
+		if x == b || seen[x] || skipped || !body[x] {
+			return
+		}
+		seen[x] = true
+		for _, s := range x.Succs {
+			if s == hdr {
+				skipped = true
+				return
+			}
+			walk(s)
+		}
+	}
+	for _, s := range hdr.Succs {
+		if body[s] {
+			walk(s)
+		}
+	}
+	return skipped
 }
 
 // skipGuard: in function fn, on every CFG path consistent with force == false and
@@ -405,9 +522,112 @@ func (c *Check) demangleNames() {
 					c.bad("C12-R4", key, c.P.relFile(st.Pos()), "a constant string is stored into Function.Name in "+name)
 					continue
 				}
-				c.ok("C12-R4", key, c.P.relFile(st.Pos()), "Function.Name assigned in "+name, "stored value is "+describeValue(st.Val)+", not a constant")
+				// the stored value must be known non-empty at the store
+				why := nonEmptyAtStore(f, st)
+				if why != "" {
+					c.ok("C12-R4", key, c.P.relFile(st.Pos()), "Function.Name assigned in "+name, why)
+				} else {
+					c.bad("C12-R4", key, c.P.relFile(st.Pos()), "Function.Name is assigned "+describeValue(st.Val)+" in "+name+" without a test that it is non-empty: simplifying a name that consists only of a bracketed group (\"<lambda>\") yields the empty string, which replaces the non-empty name")
+				}
 			}
 		}
 	}
 	c.Floor("C12-R4", 3)
+}
+
+// naturalLoop: the blocks of the natural loop with header hdr (hdr included).
+func naturalLoop(hdr *ssa.BasicBlock) map[*ssa.BasicBlock]bool {
+	body := map[*ssa.BasicBlock]bool{hdr: true}
+	var work []*ssa.BasicBlock
+	for _, pred := range hdr.Preds {
+		if hdr.Dominates(pred) {
+			work = append(work, pred)
+		}
+	}
+	for len(work) > 0 {
+		x := work[len(work)-1]
+		work = work[:len(work)-1]
+		if body[x] {
+			continue
+		}
+		body[x] = true
+		work = append(work, x.Preds...)
+	}
+	return body
+}
+
+// nonEmptyAtStore: why the value stored into Function.Name cannot be "" (or "" if unknown).
+func nonEmptyAtStore(f *ssa.Function, st *ssa.Store) string {
+	v := st.Val
+	// (a) v is fn.SystemName and SystemName != "" was tested on the way
+	if isFieldLoad(v, "profile.Function", "SystemName") {
+		reach := reachUnder(f, func(cond ssa.Value) int { return strFieldEmptyCond(cond, "SystemName") })
+		if !reach[st.Block()] {
+			return "the value is SystemName and the store is unreachable when SystemName is empty"
+		}
+	}
+	// (b) a demangle.Filter result stored only when it differs from its input (non-empty input gives non-empty output; an empty input equals its output)
+	if call, ok := v.(*ssa.Call); ok && call.Call.StaticCallee() != nil && call.Call.StaticCallee().Name() == "Filter" {
+		for d := st.Block(); d != nil; d = d.Idom() {
+			id := d.Idom()
+			if id == nil {
+				break
+			}
+			if iff, ok := id.Instrs[len(id.Instrs)-1].(*ssa.If); ok {
+				if cmp, ok := iff.Cond.(*ssa.BinOp); ok && cmp.Op == token.NEQ && (cmp.X == v || cmp.Y == v) {
+					return "a demangle.Filter result, stored only when it differs from the mangled input"
+				}
+			}
+		}
+	}
+	// (c) any value under a dominating test v != "" (or len(v) != 0)
+	for d := st.Block(); d != nil; d = d.Idom() {
+		id := d.Idom()
+		if id == nil {
+			break
+		}
+		iff, ok := id.Instrs[len(id.Instrs)-1].(*ssa.If)
+		if !ok {
+			continue
+		}
+		cmp, ok := iff.Cond.(*ssa.BinOp)
+		if !ok {
+			continue
+		}
+		var other ssa.Value
+		if cmp.X == v {
+			other = cmp.Y
+		} else if cmp.Y == v {
+			other = cmp.X
+		}
+		if s, isStr := constString2(other); other != nil && isStr && s == "" {
+			onTrue := id.Succs[0] == d || id.Succs[0].Dominates(d)
+			onFalse := id.Succs[1] == d || id.Succs[1].Dominates(d)
+			if cmp.Op == token.NEQ && onTrue && !onFalse || cmp.Op == token.EQL && onFalse && !onTrue {
+				return "the store is on the branch where the value was tested to be non-empty"
+			}
+		}
+	}
+	// early exit form: if v == "" { return }
+	reach := reachUnder(f, func(cond ssa.Value) int {
+		if cmp, ok := cond.(*ssa.BinOp); ok && (cmp.X == v || cmp.Y == v) {
+			var other ssa.Value = cmp.Y
+			if cmp.Y == v {
+				other = cmp.X
+			}
+			if s, isStr := constString2(other); isStr && s == "" {
+				if cmp.Op == token.EQL {
+					return 1
+				}
+				if cmp.Op == token.NEQ {
+					return -1
+				}
+			}
+		}
+		return 0
+	})
+	if !reach[st.Block()] {
+		return "the store is unreachable when the value is empty"
+	}
+	return ""
 }
